@@ -72,6 +72,13 @@ CHECKS = {
             "Trusted: transfer.py (keys from the first mapping row), scipy residual check. A scaled asset's own window governs only "
             "its fixed cost (dispatch follows the base asset's window).",
             "DESIGN.md 5 C08"),
+    "C09": ("property-based testing (Hypothesis): metamorphic relation (injective renaming x permutation) with solution transfer and relabelled output tables",
+            "Exploration: every generated portfolio is solved under its own names and under adversarial names (numeric strings, "
+            "mutual prefixes/suffixes, '<asset>_internal_<node>' look-alikes) in a permuted order; value, transferred solution "
+            "and relabelled dispatch/DCF tables must agree.",
+            "Trusted: transfer.py; names without parentheses (output label format). Tables are compared at the transferred vector, "
+            "so non-unique optima cannot raise an alarm.",
+            "DESIGN.md 5 C09"),
     "C19": ("property-based testing (Hypothesis) against an independent UTC-arithmetic reference model",
             "Exploration: thousands of generated grids / windows / interval lists / price inputs per run are compared "
             "with a reference written from the statement (own time arithmetic). No solver, so the comparison is exact; "
